@@ -24,8 +24,8 @@ python3 - "$V" "$REPO" <<'PY'
 import json,os,sys
 V,REPO=sys.argv[1],sys.argv[2]
 rep={}
-mp=os.path.join(V,'hooks','overlay.map')
-if os.path.exists(mp):
+import glob
+for mp in sorted(glob.glob(os.path.join(V,'hooks','overlay.d','*.map'))):
     for line in open(mp):
         line=line.strip()
         if not line or line.startswith('#'): continue
